@@ -51,7 +51,14 @@ CheckMain(r) == LET v == Verdict(r) IN
             /\ (IF r.bound /\ r.exc = "" /\ ~TriesOK(r) THEN PrintT(<<"REJECT", r.tid, "abs", "locale-loop-order", r.tries>>) ELSE TRUE)
 
 TInit == l = 0
-Check(r) == IF r.kind = "conv" THEN CheckConv(r) ELSE CheckMain(r)
+\* kind "tpl": a parser made with try_previous_locales=True for ONE language, used after another such parser of another
+\* language in the same process: it still reports its own language and returns what that language alone gives
+CheckTpl(r) ==
+  IF r.exc # "" THEN PrintT(<<"REJECT", r.tid, "prop", "exception", r.single>>)
+  ELSE IF r.out.loc # "" /\ ~(\E i \in 1..Len(r.selected) : r.selected[i] = r.out.loc) THEN PrintT(<<"REJECT", r.tid, "prop", "reported-locale-not-selected", r.single>>)
+  ELSE IF r.out # r.single THEN PrintT(<<"REJECT", r.tid, "prop", "previous-locales-of-another-parser-used", r.single>>)
+  ELSE TRUE
+Check(r) == IF r.kind = "conv" THEN CheckConv(r) ELSE IF r.kind = "tpl" THEN CheckTpl(r) ELSE CheckMain(r)
 TNext == l < Len(Tr) /\ l' = l + 1 /\ Check(Tr[l + 1])
 TSpec == TInit /\ [][TNext]_l
 Consumed == PrintT(<<"CONSUMED", TLCGet("stats").diameter - 1, Len(Tr)>>)
